@@ -5460,6 +5460,18 @@ class PyCdlib:
                     if id(linkrec) != id(entry):
                         new_list.append((linkrec, is_pvd))
                 entry.inode.linked_records = new_list
+                # The boot info table belongs to El Torito; the file gets its
+                # own bytes back.
+                entry.inode.boot_info_table = None
+                if not new_list:
+                    # The boot file was only referenced by El Torito (all of
+                    # its names were removed with rm_hard_link); remove its
+                    # data along with the entry.
+                    for index, ino in enumerate(self.inodes):
+                        if id(ino) == id(entry.inode):
+                            del self.inodes[index]
+                            num_bytes_to_remove += utils.ceiling_div(entry.inode.get_data_length(), self.logical_block_size) * self.logical_block_size
+                            break
 
         num_bytes_to_remove += len(self.eltorito_boot_catalog.record())
 
